@@ -47,6 +47,7 @@ func heldPolicy() bool                             { panic("spec") }
 func heldShard() bool                              { panic("spec") }
 func heldShardR() bool                             { panic("spec") }
 func heldToken() bool                              { panic("spec") }
+func loaded[T any](x T) T                          { panic("spec") }
 func owned(x any) bool                             { panic("spec") }
 func same(a, b any) bool                           { panic("spec") }
 func wsum(l any) int64                             { panic("spec") } // sum of policyWeight over the ghost member set of list l
